@@ -66,6 +66,18 @@ pub fn file_values(tier: Tier) -> Vec<(String, String)> {
             inputs.push(("chars".into(), json_string(&t, false)));
         }
     }
+    // ---- (2d) values no range branch may hold (null, maps, a nested range) and odd ones (numbers, booleans), in the
+    // first / a middle / the fallback branch of a typed and of an untyped range, in the list and in the map form of a
+    // branch: refused with an error, or carried through code generation - never a panic later on
+    for ty in ["", "\"i8\", "] {
+        for bad in ["null", "{}", "{\"a\": \"b\"}", "[[\"x\", 0], [\"y\"]]", "1", "true", "\"\""] {
+            for pos in 0..3 {
+                let v = |i: usize| if i == pos { bad.to_string() } else { format!("\"t{i} {{{{ count }}}}\"") };
+                inputs.push(("range-branch-value".into(), format!("[{ty}[{}, 0], [{}, \"1..3\"], [{}]]", v(0), v(1), v(2))));
+                inputs.push(("range-branch-value".into(), format!("[{ty}{{\"count\": 0, \"value\": {}}}, {{\"value\": {}, \"count\": \"1..3\"}}, {{\"value\": {}}}]", v(0), v(1), v(2))));
+            }
+        }
+    }
     // ---- (3) range specifications ---------------------------------------------------------------------
     let spec_toks = ["0", "1", "-", "..", "..=", "|", "_", "NaN", "inf", "1e999", "128", "-129", " "];
     for ty in ["i8", "u8", "f32", "u64"] {
